@@ -161,7 +161,7 @@ PLANS = {
                'thorough': [('msa', dict(invariants=['Inv_C01'], prmset='PrmMsa', ceilos=('a',), nt=3)),
                             ('msa2', dict(invariants=['Inv_C01'], prmset='PrmMsaQ', ceilos=('a', 'b'), nt=2, vv=True, maxper=1))]},
         'families': {'quick': [('F2', fam_layer_tables, 700), ('F1', fam_model('PrmMsaQ'), 200), ('Rcross', fam_crossing, 80), ('F3e', fam_fractional, 64), ('Rtiny', fam_rand('tiny'), 250), ('Rmid', fam_rand('mid'), 40)],
-                     'thorough': [('F2', fam_layer_tables, 30000), ('F1', fam_model('PrmMsa'), 6000), ('F1x', fam_model('PrmMsaQ', ceilos=('a',), nt=3), None), ('Rcross', fam_crossing, 1000), ('F3e', fam_fractional, 800), ('Rtiny', fam_rand('tiny'), 3000), ('Rmid', fam_rand('mid'), 400)]},
+                     'thorough': [('F2', fam_layer_tables, 12000), ('F1', fam_model('PrmMsa'), 6000), ('F1x', fam_model('PrmMsaQ', ceilos=('a',), nt=3), None), ('Rcross', fam_crossing, 1000), ('F3e', fam_fractional, 800), ('Rtiny', fam_rand('tiny'), 3000), ('Rmid', fam_rand('mid'), 400)]},
         'marks': ['N_tok1', 'N_tok2', 'N_tok3', 'N_msaeq', 'N_abovemsa', 'N_suppressed', 'N_4rep', 'N_okta0row', 'N_ncd', 'N_nsc'],
     },
     'C02': {
@@ -170,7 +170,7 @@ PLANS = {
                'thorough': [('msa', dict(invariants=['Inv_C02'], prmset='PrmMsa', ceilos=('a',), nt=3)),
                             ('msa2', dict(invariants=['Inv_C02'], prmset='PrmMsaQ', ceilos=('a', 'b'), nt=2, vv=True, maxper=1))]},
         'families': {'quick': [('F2', fam_layer_tables, 700), ('F1', fam_model('PrmMsaQ'), 200), ('Rcross', fam_crossing, 80), ('Rtiny', fam_rand('tiny'), 250), ('Rmid', fam_rand('mid'), 40)],
-                     'thorough': [('F2', fam_layer_tables, 30000), ('F1', fam_model('PrmMsa'), 6000), ('F1x', fam_model('PrmMsaQ', ceilos=('a',), nt=3), None), ('Rcross', fam_crossing, 1000), ('Rtiny', fam_rand('tiny'), 3000), ('Rmid', fam_rand('mid'), 400)]},
+                     'thorough': [('F2', fam_layer_tables, 12000), ('F1', fam_model('PrmMsa'), 6000), ('F1x', fam_model('PrmMsaQ', ceilos=('a',), nt=3), None), ('Rcross', fam_crossing, 1000), ('Rtiny', fam_rand('tiny'), 3000), ('Rmid', fam_rand('mid'), 400)]},
         'marks': ['N_ceilnotfirst', 'N_msaeq', 'N_abovemsa', 'N_ncd', 'N_nsc', 'N_flagedge', 'N_suppressed', 'N_okta0row'],
         'seed_shift': 7,
     },
@@ -180,7 +180,7 @@ PLANS = {
                'thorough': [('okta', dict(invariants=['Inv_C03'], prmset='PrmOkta', ceilos=('a', 'b'), nt=2, slice_oracle='bands')),
                             ('okta3', dict(invariants=['Inv_C03'], prmset='PrmOkta', ceilos=('a',), nt=4))]},
         'families': {'quick': [('F7nm', fam_nm, 900), ('F1', fam_model('PrmOkta'), 250), ('Ranomaly', fam_anomaly, 250), ('Rneg', fam_negative, 100), ('Rtiny', fam_rand('tiny'), 250), ('Rmid', fam_rand('mid'), 40)],
-                     'thorough': [('F7nm', fam_nm, None), ('F1', fam_model('PrmOkta'), 6000), ('F1x', fam_model('PrmOkta', ceilos=('a',), nt=3), None), ('Ranomaly', fam_anomaly, 3000), ('Rneg', fam_negative, 1500), ('Rtiny', fam_rand('tiny'), 3000), ('Rmid', fam_rand('mid'), 400)]},
+                     'thorough': [('F7nm', fam_nm, 25000), ('F1', fam_model('PrmOkta'), 6000), ('F1x', fam_model('PrmOkta', ceilos=('a',), nt=3), None), ('Ranomaly', fam_anomaly, 3000), ('Rneg', fam_negative, 1500), ('Rtiny', fam_rand('tiny'), 3000), ('Rmid', fam_rand('mid'), 400)]},
         'marks': ['N_multihit', 'N_okta0buf', 'N_okta8buf', 'N_oktatie', 'N_rows'],
         'seed_shift': 11,
     },
@@ -189,9 +189,9 @@ PLANS = {
         'mc': {'quick': [('base', dict(invariants=['Inv_C04'], prmset='PrmBaseQ', ceilos=('a', 'b'), nt=2, maxper=1))],
                'thorough': [('base', dict(invariants=['Inv_C04'], prmset='PrmBase', ceilos=('a', 'b'), nt=2, maxper=1)),
                             ('code', dict(invariants=['Inv_C04'], prmset='PrmBaseQ', ceilos=('a', 'b'), nt=2, lattice='LatticeB', maxper=1)),
-                            ('base3', dict(invariants=['Inv_C04'], prmset='PrmBaseQ', ceilos=('a',), nt=4, orders=('asc', 'desc')))]},
+                            ('base3', dict(invariants=['Inv_C04'], prmset='PrmBaseQ', ceilos=('a',), nt=4, maxper=1, orders=('asc', 'desc')))]},
         'families': {'quick': [('F3', fam_bands, 500), ('F3b', fam_split, 150), ('F3c', fam_boundary, 300), ('Rlone', fam_lonemulti, 80), ('Rcross', fam_crossing, 60), ('Rtiny', fam_rand('tiny'), 300), ('Rmid', fam_rand('mid'), 60)],
-                     'thorough': [('F3', fam_bands, None), ('F3b', fam_split, 3000), ('F3c', fam_boundary, 4000), ('Rlone', fam_lonemulti, 1500), ('Rtiny', fam_rand('tiny'), 4000), ('Rmid', fam_rand('mid'), 600), ('Rbig', fam_rand('big'), 60)]},
+                     'thorough': [('F3', fam_bands, 12000), ('F3b', fam_split, 3000), ('F3c', fam_boundary, 4000), ('Rlone', fam_lonemulti, 1500), ('Rtiny', fam_rand('tiny'), 4000), ('Rmid', fam_rand('mid'), 600), ('Rbig', fam_rand('big'), 60)]},
         'marks': ['N_lookback', 'N_baseties', 'N_excl', 'N_fallback', 'N_interp', 'N_above10k', 'N_floattie', 'N_nearboundary'],
         'seed_shift': 13,
     },
@@ -221,7 +221,7 @@ PLANS = {
                             ('pinned_merge', dict(invariants=['Inv_C06g'], prmset='PrmPinM', ceilos=('a', 'b'), nt=2, lattice='LatticeE', maxper=1, merge_excl=False), 'Inv_C06g'),
                             ('pinned_order', dict(invariants=['Inv_C06l'], prmset='PrmPinO', ceilos=('a',), nt=4, lattice='LatticeF', maxper=2, orders=('desc',), gmm_time=False), 'Inv_C06l')]},
         'families': {'quick': [('F3', fam_bands, 500), ('F3b', fam_split, 300), ('F3d', fam_tiesplit, 144), ('F3g', fam_limit, 180), ('Rneg', fam_negative, 160), ('Rtiny', fam_rand('tiny'), 250), ('Rmid', fam_rand('mid'), 60)],
-                     'thorough': [('F3', fam_bands, None), ('F3b', fam_split, None), ('F3d', fam_tiesplit, 2500), ('F3g', fam_limit, 2700), ('Rneg', fam_negative, 2000), ('Rtiny', fam_rand('tiny'), 4000), ('Rmid', fam_rand('mid'), 800), ('Rbig', fam_rand('big'), 60)]},
+                     'thorough': [('F3', fam_bands, 12000), ('F3b', fam_split, None), ('F3d', fam_tiesplit, 2500), ('F3g', fam_limit, 2700), ('Rneg', fam_negative, 2000), ('Rtiny', fam_rand('tiny'), 4000), ('Rmid', fam_rand('mid'), 800), ('Rbig', fam_rand('big'), 60)]},
         'marks': ['N_merge', 'N_2groups', 'N_sepbin2', 'N_noremerge', 'N_split', 'N_split3'],
         'seed_shift': 19,
     },
